@@ -1,5 +1,6 @@
 """C08 X12 to XML to X12 is the identity on structurally valid documents."""
 import ast
+import itertools
 import re
 
 from ..core import require_idiom, Ob, Rule, AnalysisError, norm, KeyMaker
@@ -82,7 +83,16 @@ def r1_vocabulary(ctx):
     yield Ob('x12xml_simple:x12xml_simple.seg writes element and sub-element values', ok, ctx.floc(seg), '' if ok else '%d elem() calls' % len(elems))
     for c in elems:
         v = norm(c.args[1])
-        ok = v in ("seg_data.get_value('%02i' % (i + 1))", 'comp_data[j].get_value()')
+        val = c.args[1]
+        ok = False
+        if isinstance(val, ast.Call) and A.call_target(val) == ('seg_data', 'get_value') and val.args:
+            # the designator expression must print position i+1 with two digits, however it is formatted
+            try:
+                ok = [A.ev(val.args[0], {'i': k}) for k in (0, 8, 9, 41)] == ['01', '09', '10', '42']
+            except (A.NotClosed, TypeError, ValueError):
+                ok = False
+        elif v == 'comp_data[j].get_value()':
+            ok = True
         yield Ob('x12xml_simple:x12xml_simple.seg value written is the one at the node position [%s]' % v, ok, ctx.floc(seg, c),
                  '' if ok else 'value expression %s does not address position i / component j' % v)
     # reader: ids go to Segment.set together with the text
@@ -254,15 +264,38 @@ def r4_empty_agreement(ctx):
     if len(loops) != 1:
         raise AnalysisError('x12xml_simple.seg: element loop not found')
     lp = loops[0]
-    ifs = [s for s in lp.body if isinstance(s, ast.If)]
-    if len(ifs) != 1:
-        raise AnalysisError('x12xml_simple.seg: element dispatch not found')
-    t = ifs[0].test
-    txt = norm(t, 200)
-    ok = isinstance(t, ast.BoolOp) and isinstance(t.op, ast.Or) and "child_node.usage == 'N'" in txt and '.is_empty()' in txt \
-        and all(isinstance(s, ast.Pass) for s in ifs[0].body)
-    require_idiom(ok, 'c08.py:260')
-    yield Ob('x12xml_simple:x12xml_simple.seg skips exactly not-used or empty elements', ok, ctx.floc(seg, ifs[0]), '' if ok else 'skip predicate is %s' % txt)
+    # an element is written exactly when it is used by the map and not empty in the data: the conditions around every
+    # writer call of the loop are evaluated over usage x emptiness (whatever the shape of the branch)
+    writes = [c for c in A.calls_in(lp) if A.call_target(c)[0] == 'self.writer' and A.call_target(c)[1] in ('elem', 'push')]
+    if len(writes) < 2:
+        raise AnalysisError('x12xml_simple.seg: element writes not found')
+    bad = []
+    for c in writes:
+        st = A.enclosing(c, (ast.stmt,))
+        conds = A.path_condition(st, seg)
+        tab = {}
+        for t, _pol in conds:
+            for x in ast.walk(t):
+                if isinstance(x, ast.Call) and A.call_target(x)[1] == 'is_empty':
+                    tab[ast.unparse(x)] = 'EMPTY'
+        used = False
+        for u, e in itertools.product(('N', 'S', 'R'), (True, False)):
+            got = True
+            for t, pol in conds:
+                t2 = A.abstract(t, tab)
+                if not A.free_paths(t2) <= {'child_node.usage', 'EMPTY'}:
+                    continue
+                used = True
+                try:
+                    got = got and (bool(A.ev(t2, {'child_node.usage': u, 'EMPTY': e})) == pol)
+                except (A.NotClosed, TypeError):
+                    raise AnalysisError('x12xml_simple.seg: skip condition not closed: %s' % norm(t))
+            if got != (not (u == 'N' or e)):
+                bad.append('usage %s, %s element: %s' % (u, 'empty' if e else 'non-empty', 'written' if got else 'skipped'))
+        if not used:
+            bad.append('%s is not guarded by the usage/emptiness test' % norm(c, 50))
+    ok = not bad
+    yield Ob('x12xml_simple:x12xml_simple.seg skips exactly not-used or empty elements', ok, ctx.floc(seg, lp), '' if ok else bad[0])
     # loop covers every element position of the data
     okr = True
     for nchild, want in ((9, [0, 1, 2, 3]), (4, [0, 1, 2, 3]), (2, [0, 1])):
